@@ -4,8 +4,15 @@
    these stand (inside @if / @each bodies too); a filled reserve shows exactly what the insert's body
    (or expression) renders in place with the data of the call, an unfilled one nothing; an insert
    without a reserve and a missing layout are load errors, a layout that uses a layout fails when
-   rendered; '~x' is 'layouts/x'.  The end-to-end equation "String(page) = EvaluateString(layout
-   text with every @reserve replaced by the insert's text)" is decided on generated trees. *)
+   rendered; '~x' is 'layouts/x'.
+   END TO END (Proofs/LayoutRefine.v): for every layout tree - reserves at any nesting depth inside
+   @if / @elseif / @else / @each / @for - and every assignment of inserts (block form, expression form
+   or none, per reserve), a page that declares @use of that layout LOADS to the layout alone and
+   RENDERS (Template.String on the loaded template) exactly what the big-step semantics of
+   Spec/Template.v gives for the layout tree with the inserts put into its reserves (fill), with
+   the data of the call; an error where the semantics says error.  The loader's rewriting with
+   its depth budget, line-number irrelevance and the evaluator refinement (which covers reserve
+   nodes) are composed.  The equation against the implementation is the correspondence run. *)
 From Coq Require Import String.
 From TW Require Import Bytes GenToken Lexer Ast Parser Values Builtins Eval Render Api Layouts.
 Open Scope N_scope.
@@ -79,3 +86,84 @@ Theorem C06_tilde_alias st name dir :
   tlit (curT st) = 126 :: name -> aliasPath st dir = (dir ++ [47] ++ name, st).
 Proof. exact (alias_path st name dir). Qed.
 Print Assumptions C06_tilde_alias.
+
+(* ---- end to end: the page renders its layout, filled *)
+From TW Require Import Expr Template ExprSem CleanValues TemplateRefine LineIrrelevance LayoutRefine.
+
+Theorem C06_page_renders_its_layout_filled fs cfg rel p lp uln lname L ins fsp gd (data : list (bytes * value)) :
+  parse_file fs rel = LOk (PProg p) -> p_use p = Some (uln, lname) -> p_components p = [] ->
+  parse_file fs (rel_of cfg lname) = LOk (PProg lp) -> p_use lp = None ->
+  undefined_insert (asort (p_inserts p)) (p_reserves lp) = None ->
+  map strip_s (p_stmts lp) = map strip_s (map cnode L) ->
+  Forall (lay (rid_name (p_reserves lp)) rw_fuel) L -> nodes_ok L ->
+  (forall name, match ins_of_page p name with Some x => Some (strip_ins x) | None => None end =
+                match ins name with Some i => Some (strip_ins (cins i)) | None => None end) ->
+  ins_ok ins ->
+  env_from_map gd = EnvOk [data] ->
+  forallb (fun kv : bytes * value => clean (snd kv)) data = true ->
+  exists ss isl, load_page fs cfg rel = LOk (ss, isl) /\
+  exists K, (K <= eval_fuel)%nat -> forall tpl name, alookup name tpl = Some ss ->
+    match run_nodes model_call_spec fsp [data] (map (fill ins) L) with
+    | TOk out SigNormal _ => template_string cx0 cfg tpl name gd = StrOk out
+    | TOk _ _ _ => True
+    | TFail => exists e, template_string cx0 cfg tpl name gd = StrErr e
+    | TNoFuel | TUnprintable => True
+    end.
+Proof. exact (page_renders_filled_layout fs cfg rel p lp uln lname L ins fsp gd data). Qed.
+Print Assumptions C06_page_renders_its_layout_filled.
+
+(* what a filled reserve shows, in the specification: the body rendered at the reserve's place
+   (Spec/Template.run_node), the value of the expression form, nothing *)
+Theorem C06_filled_reserve_in_the_specification f sc n rid b a e :
+  run_node model_call_spec (S f) sc (NReserve n rid (Some b) a) =
+    match run_nodes model_call_spec f sc b with TOk o _ sc1 => TOk o SigNormal sc1 | r => r end /\
+  run_node model_call_spec (S f) sc (NReserve n rid None (Some e)) = run_node model_call_spec (S f) sc (NPrint e) /\
+  run_node model_call_spec (S f) sc (NReserve n rid None None) = TOk [] SigNormal sc.
+Proof.
+  split; [exact (rn_reserve_block f sc n rid b a)|]. split; [|exact (rn_reserve_empty f sc n rid)].
+  rewrite rn_reserve_expr, rn_print. reflexivity.
+Qed.
+
+(* non-vacuity: a layout with a reserve at top level, one two blocks deep inside @if and @each, and
+   one the page does not fill; a page with junk between its inserts; all hypotheses of the theorem
+   hold (by computation) and the loaded template renders the filled layout *)
+Definition fs6 : fsys :=
+  [(bs "templates/home.tw.html", FFile (bs "@use('~main')junk@insert('t', name)more@insert('b')<b>{{ n + 1 }}</b>@end tail"));
+   (bs "templates/layouts/main.tw.html", FFile (bs "<t>@reserve('t')</t>@if(show)@each(i in [1, 2])[@reserve('b')]@end@end@reserve('none')"))].
+Definition L6 : list tnode :=
+  [NText (bs "<t>"); NReserve (bs "t") 0 None None; NText (bs "</t>");
+   NIf (XVar (bs "show")) [NEach (bs "i") (XArr [XInt 1; XInt 2]) [NText (bs "["); NReserve (bs "b") 1 None None; NText (bs "]")] None] [] None;
+   NReserve (bs "none") 2 None None].
+Definition ins6 (nm : bytes) : option sinsert :=
+  if bytes_eqb nm (bs "t") then Some (IExpr (XVar (bs "name")))
+  else if bytes_eqb nm (bs "b") then Some (IBlock [NText (bs "<b>"); NPrint (XBin BAdd (XVar (bs "n")) (XInt 1)); NText (bs "</b>")])
+  else None.
+Definition gd6 : list (bytes * goval) := [(bs "name", GStr (bs "Ann")); (bs "n", GInt 41); (bs "show", GBool true)].
+
+Example C06_filled_layout_example :
+  exists p lp,
+    parse_file fs6 (bs "templates/home.tw.html") = LOk (PProg p) /\ p_use p = Some (1%nat, bs "layouts/main") /\
+    p_components p = [] /\
+    parse_file fs6 (rel_of default_config (bs "layouts/main")) = LOk (PProg lp) /\ p_use lp = None /\
+    undefined_insert (asort (p_inserts p)) (p_reserves lp) = None /\
+    map strip_s (p_stmts lp) = map strip_s (map cnode L6) /\
+    Forall (lay (rid_name (p_reserves lp)) rw_fuel) L6 /\ nodes_ok L6 /\ ins_ok ins6 /\
+    (forall tpl, new_template fs6 default_config = LOk tpl ->
+       template_string cx0 default_config tpl (bs "home") gd6 = StrOk (bs "<t>Ann</t>[<b>42</b>][<b>42</b>]")).
+Proof.
+  assert (Hr : match new_template fs6 default_config with
+               | LOk tpl => template_string cx0 default_config tpl (bs "home") gd6
+               | _ => StrPanic
+               end = StrOk (bs "<t>Ann</t>[<b>42</b>][<b>42</b>]")) by (vm_compute; reflexivity).
+  eexists. eexists.
+  split; [vm_compute; reflexivity|]. split; [reflexivity|]. split; [reflexivity|].
+  split; [vm_compute; reflexivity|]. split; [reflexivity|].
+  split; [vm_compute; reflexivity|]. split; [vm_compute; reflexivity|].
+  split.
+  { apply (Forall_impl _ (fun n => lay_le _ 5 rw_fuel n ltac:(vm_compute; repeat constructor))). unfold L6. repeat constructor. }
+  split; [cbn; repeat split; lia|].
+  split.
+  { intros nm i. unfold ins6. destruct (bytes_eqb nm (bs "t")); [intros [= <-]; exact I|].
+    destruct (bytes_eqb nm (bs "b")); [intros [= <-]; cbn; repeat split; lia|discriminate]. }
+  intros tpl Ht. rewrite Ht in Hr. exact Hr.
+Qed.
